@@ -9,7 +9,9 @@
 (* that must stay, the same for annotations, a status, a spec version, finalizers.         *)
 EXTENDS Integers, Sequences, FiniteSets, TLC, Json
 
-CONSTANTS EnvBudget, Beh, StatusSubs, Selections
+CONSTANTS EnvBudget, Beh, StatusSubs, Selections, SelStyles
+\* SelStyles: subset of {"ml", "me", "mixed"}: how the two selectors are written (matchLabels / matchAnnotations only,
+\*            matchExpressions only, both kinds of clause) -- the same targets are selected in every style
 \* Selections: subset of {"both","labelOnly","annOnly","neither"} (which selectors the target satisfies)
 
 Vals    == {"none", "a", "b"}                       \* value of the named key ("none" = absent)
@@ -17,8 +19,8 @@ Answers == {"unnamed", "a", "b", "null"}            \* what the hook says about 
 StVals  == {"none", "s0", "s1"}
 StAns   == {"null", "s0", "s1"}
 
-VARIABLES tgt, cache, pc, loc, budget, rvc, viol, hist, ans, sub, sel, t0, fin0
-vars == <<tgt, cache, pc, loc, budget, rvc, viol, hist, ans, sub, sel, t0, fin0>>
+VARIABLES tgt, cache, pc, loc, budget, rvc, viol, hist, ans, sub, sel, t0, fin0, style
+vars == <<tgt, cache, pc, loc, budget, rvc, viol, hist, ans, sub, sel, t0, fin0, style>>
 H(e) == IF Beh THEN Append(hist, e) ELSE hist
 
 Tgt(l, a, s) == [lab |-> l, ann |-> a, st |-> s, spec |-> 1, rv |-> 1, userLab |-> 1]
@@ -26,7 +28,7 @@ Init ==
   /\ \E l \in Vals, a \in Vals, s \in {"none", "s0"} : tgt = Tgt(l, a, s)
   /\ cache = tgt /\ t0 = tgt
   /\ ans \in [lab : Answers, ann : Answers, st : StAns]
-  /\ sub \in StatusSubs /\ sel \in Selections
+  /\ sub \in StatusSubs /\ sel \in Selections /\ style \in SelStyles
   /\ fin0 = FALSE
   /\ pc = "start" /\ loc = [upd |-> tgt, rv |-> 0] /\ budget = EnvBudget /\ rvc = 1 /\ viol = {} /\ hist = <<>>
 
@@ -44,7 +46,7 @@ Start ==
           IF ~changed THEN pc' = "done" /\ UNCHANGED loc
           ELSE IF newSt # c.st /\ sub THEN pc' = "stPut" /\ loc' = [upd |-> upd, rv |-> c.rv]
           ELSE pc' = "mainPut" /\ loc' = [upd |-> upd, rv |-> c.rv]
-  /\ UNCHANGED <<tgt, cache, budget, rvc, viol, ans, sub, sel, t0, fin0>>
+  /\ UNCHANGED <<tgt, cache, budget, rvc, viol, ans, sub, sel, t0, fin0, style>>
 \* PUT .../status with the cached resourceVersion: only status changes
 StPut ==
   /\ pc = "stPut"
@@ -53,7 +55,7 @@ StPut ==
      /\ IF ok THEN /\ tgt' = [tgt EXCEPT !.st = loc.upd.st, !.rv = rvc + 1] /\ rvc' = rvc + 1
                    /\ pc' = "mainPut" /\ loc' = [loc EXCEPT !.rv = rvc + 1]
         ELSE UNCHANGED <<tgt, rvc, loc>> /\ pc' = "done"               \* conflict: swallowed, reconciled again later
-  /\ UNCHANGED <<cache, budget, viol, ans, sub, sel, t0, fin0>>
+  /\ UNCHANGED <<cache, budget, viol, ans, sub, sel, t0, fin0, style>>
 \* PUT of the whole (copied, edited) object; with a status subresource the server ignores .status
 MainPut ==
   /\ pc = "mainPut"
@@ -66,13 +68,13 @@ MainPut ==
                    /\ viol' = viol \cup (IF new.spec # tgt.spec \/ new.userLab # tgt.userLab THEN {"C16_SpecUntouched"} ELSE {})
         ELSE UNCHANGED <<tgt, rvc, viol>>
      /\ pc' = "done" /\ UNCHANGED loc
-  /\ UNCHANGED <<cache, budget, ans, sub, sel, t0, fin0>>
+  /\ UNCHANGED <<cache, budget, ans, sub, sel, t0, fin0, style>>
 \* a user edits spec / a foreign label while the sync is between its requests (Beh: only there)
 EnvOK == budget > 0 /\ (Beh => pc \in {"stPut", "mainPut"})
 EditSpec == /\ EnvOK /\ budget' = budget - 1 /\ tgt' = [tgt EXCEPT !.spec = @ + 1, !.rv = rvc + 1] /\ rvc' = rvc + 1
-            /\ hist' = H([t |-> "env", op |-> "editspec"]) /\ UNCHANGED <<cache, pc, loc, viol, ans, sub, sel, t0, fin0>>
+            /\ hist' = H([t |-> "env", op |-> "editspec"]) /\ UNCHANGED <<cache, pc, loc, viol, ans, sub, sel, t0, fin0, style>>
 EditLab  == /\ EnvOK /\ budget' = budget - 1 /\ tgt' = [tgt EXCEPT !.userLab = @ + 1, !.rv = rvc + 1] /\ rvc' = rvc + 1
-            /\ hist' = H([t |-> "env", op |-> "editlabel"]) /\ UNCHANGED <<cache, pc, loc, viol, ans, sub, sel, t0, fin0>>
+            /\ hist' = H([t |-> "env", op |-> "editlabel"]) /\ UNCHANGED <<cache, pc, loc, viol, ans, sub, sel, t0, fin0, style>>
 Next == Start \/ StPut \/ MainPut \/ EditSpec \/ EditLab
 Spec == Init /\ [][Next]_vars
 
@@ -88,5 +90,5 @@ C16_Done == (pc = "done" /\ budget = EnvBudget /\ Selected) =>
               (tgt.lab = Apply(t0.lab, ans.lab) /\ tgt.ann = Apply(t0.ann, ans.ann) /\ (ans.st # "null" => tgt.st = ans.st))
 
 Emit == (Beh /\ pc = "done") =>
-  PrintT("SCN|" \o ToJson([t0 |-> t0, ans |-> ans, sub |-> sub, sel |-> sel, hist |-> hist, final |-> tgt]))
+  PrintT("SCN|" \o ToJson([t0 |-> t0, ans |-> ans, sub |-> sub, sel |-> sel, style |-> style, hist |-> hist, final |-> tgt]))
 =============================================================================
